@@ -376,13 +376,30 @@ func c06b(c *Ctx) {
 	if fn := c.Fn("parser.getMovementsKey"); fn != nil {
 		ok := false
 		got := ""
-		for _, ws := range c.sitesOf(fn) {
-			got = ws.format
-			if ws.isFmt && strings.HasPrefix(ws.format, "%s") && len(ws.format) > 2 && len(ws.argT) == 1 && strings.HasSuffix(ws.argT[0], ".Literal") {
-				sep := ws.format[2:]
-				r := rune(sep[0])
+		// the key is (step separator)* for one separator character outside the identifier alphabet,
+		// however the pieces are written
+		if sbv := returnedBuilder(fn); sbv != nil {
+			nfa := c.outputNFA(fn, sbv)
+			var seps []string
+			for _, sy := range nfa.symbols() {
+				if sy != "%s" {
+					seps = append(seps, sy)
+				}
+			}
+			got = strings.Join(seps, "")
+			if len(seps) == 1 && len(seps[0]) == 1 {
+				r := rune(seps[0][0])
 				if !(r == '_' || r >= '0' && r <= '9' || r >= 'a' && r <= 'z' || r >= 'A' && r <= 'Z' || r > 127) {
-					ok = true
+					ok, _ = nfa.includedIn(gStar(gSeq(gLit("%s"), gLit(seps[0]))))
+				}
+			}
+			// each step written is a step's literal
+			for _, ws := range c.sitesOf(fn) {
+				for _, t := range ws.argT {
+					ok = ok && strings.HasSuffix(t, ".Literal")
+				}
+				if !ws.isFmt && !ws.konst && ws.method == "WriteString" {
+					ok = ok && strings.HasSuffix(c.term(fn, ws.arg), ".Literal")
 				}
 			}
 		}
